@@ -35,9 +35,9 @@ def ub_subjects(tier, derive_use, miri=False):
         decls = [make_decl("i8", [3, 4, 5, 6], salt=1), make_decl("i8", [-10, -5, -4, 3], salt=2), make_decl("u64", [1, 2, 9], salt=3)]
         bounds = dict(x1_depth=1, x2_extra=0, x2_cap=3, range_x1_depth=0, range_x2_extra=0, consumers=False, light=True)
         if tier == "thorough":
-            for r in ["i8", "u8", "i16", "i64", "u128"]:
+            for r in ["i8", "u16", "i64", "u128"]:
                 decls += family_F(r, 1, 2, 1, renames=True)
-            bounds = dict(x1_depth=1, x2_extra=1, x2_cap=4, range_x1_depth=0, range_x2_extra=1, consumers=True, light=True)
+            bounds = dict(x1_depth=1, x2_extra=1, x2_cap=4, range_x1_depth=0, range_x2_extra=0, consumers=False, light=True)
     elif tier == "quick":
         decls = []
         for r in ("i8", "u8", "i64", "u128"):
@@ -49,13 +49,15 @@ def ub_subjects(tier, derive_use, miri=False):
         decls = []
         for r in ALL_REPRS:
             decls += family_F(r, 2, 2, 2)
-        for r in ("i8", "u8", "i16", "i64"):
+        for r in ("i8", "i64"):
             decls += family_F(r, 3, 3, 3)
         for r in ALL_REPRS:
             decls += family_L(r)
-        for r in ("i16", "u16"):
-            decls += family_H(r)
-        bounds = dict(x1_depth=3, x2_extra=2, x2_cap=7, range_x1_depth=2, range_x2_extra=1)
+        for r in ("i8", "u16", "i32", "u64"):
+            decls += enums.family_R(r) + enums.family_A(r) + enums.family_M(r, 3)
+        # (the 65534-variant enums of family H run natively in C01/C03/C05/C06 thorough: a false unchecked assumption there
+        #  aborts the debug build or yields an undeclared discriminant, both of which those checks report)
+        bounds = dict(x1_depth=2, x2_extra=2, x2_cap=6, range_x1_depth=1, range_x2_extra=1)
     for i, d in enumerate(decls):
         n = len(d.variants)
         big = n > 64
